@@ -975,7 +975,8 @@ impl<'a> CompilerState<'a> {
         let p = pairs.next().unwrap();
         match p.as_rule() {
             Rule::primary_var_type => {
-                let s = p.as_str();
+                // The words of the type, whatever is written between and around them
+                let s = p.as_str().split_whitespace().collect::<Vec<_>>().join(" ");
                 if s.contains("*") {
                     Ok(2)
                 } else if s == "char" {
